@@ -7,6 +7,8 @@ WORDS = [b"actor", b"must", b"comply", b"policy", b"x", b"y"]
 
 def hostile_text(rng, structural=True, maxlen=4):
     """Any byte string is a legal leaf of a built tree; structural=False leaves out brackets for parsed text."""
+    if rng.random() < 0.04:
+        return rng.choice([b" ", b"\t", b"  ", b" \t "])      # a blank value (what "X,p( )" leaves behind)
     n = rng.randint(1, maxlen)
     out = []
     for _ in range(n):
